@@ -58,6 +58,44 @@ def iterOccupancy(self, tick=True, start_pos=None):
     """
     return self.iterRange(None, None, tick=tick, start_pos=start_pos)
 
+def iterPositions(self, start_pos=None):
+    """Iterate over the positions of the elements delivered by iteration
+
+    Generate, in order, the position in the fiber of each element that
+    `__iter__(tick=False, start_pos=start_pos)` delivers. For an eager
+    fiber in compressed format this is the index of every non-default
+    element; in all other cases (lazy fibers, uncompressed format) the
+    elements are simply numbered in the order they are delivered.
+
+    Parameters
+    ----------
+    start_pos: Optional[int]
+        Saved position iteration starts from
+
+    """
+    pos = Payload.get(start_pos)
+    if pos is None:
+        pos = 0
+
+    if self.getOwner() is not None:
+        fmt = self.getOwner().getFormat()
+    elif self.getRankAttrs() is not None:
+        fmt = self.getRankAttrs().getFormat()
+    else:
+        fmt = "C"
+
+    if self.isLazy() or fmt != "C":
+        while True:
+            yield pos
+            pos += 1
+
+    default = self.getDefault()
+    while pos < len(self.payloads):
+        if not Payload.isEmpty(self.payloads[pos], default=default):
+            yield pos
+
+        pos += 1
+
 def iterShape(self, tick=True):
     """Iterate over fiber shape
 
@@ -533,9 +571,10 @@ def intersection(*args, **kwargs):
 
                     leader_traced = Metrics.isTraced(rank, traces[0])
 
-                for i, (c, p) in enumerate(self.fibers[0].__iter__(tick=False)):
+                positions = self.fibers[0].iterPositions()
+                for c, p in self.fibers[0].__iter__(tick=False):
                     if leader_traced:
-                        Metrics.addUse(rank, c, i, type_=traces[0])
+                        Metrics.addUse(rank, c, next(positions), type_=traces[0])
 
                     payloads = [p]
                     for j, fiber in enumerate(self.fibers[1:]):
@@ -707,8 +746,11 @@ def __and__(self, other):
                 a_traced = Metrics.isTraced(rank, a_trace)
                 b_traced = Metrics.isTraced(rank, b_trace)
 
-                a_pos = 0
-                b_pos = 0
+                # Positions of the elements of each operand in its own fiber
+                a_positions = self.a_fiber.iterPositions()
+                b_positions = self.b_fiber.iterPositions()
+                a_pos = next(a_positions, None)
+                b_pos = next(b_positions, None)
 
             # Get the iterators
             a = self.a_fiber.__iter__(tick=False)
@@ -769,11 +811,11 @@ def __and__(self, other):
 
                     if a_traced:
                         Metrics.addUse(rank, a_coord, a_pos, type_=a_trace)
-                        a_pos += 1
+                        a_pos = next(a_positions, None)
 
                     if b_traced:
                         Metrics.addUse(rank, b_coord, b_pos, type_=b_trace)
-                        b_pos += 1
+                        b_pos = next(b_positions, None)
 
                     yield succ_yield(a_coord, b_coord), (a_payload, b_payload)
 
@@ -785,7 +827,7 @@ def __and__(self, other):
                 if a_coord < b_coord:
                     if a_traced:
                         Metrics.addUse(rank, a_coord, a_pos, type_=a_trace)
-                        a_pos += 1
+                        a_pos = next(a_positions, None)
 
                     if is_collecting:
                         Metrics.incIter(rank)
@@ -797,7 +839,7 @@ def __and__(self, other):
                 if a_coord > b_coord:
                     if b_traced:
                         Metrics.addUse(rank, b_coord, b_pos, type_=b_trace)
-                        b_pos += 1
+                        b_pos = next(b_positions, None)
 
                     if is_collecting:
                         Metrics.incIter(rank)
